@@ -25,7 +25,7 @@ BIG = 20000         # one frame well beyond 16 KiB (chunk data, a large plugin m
 FALLBACK = {'negotiate': 340, 'negotiate_out': 498}     # negotiate_out: the default version is supported but not among the allowed ones
 
 
-def conversation(kind, cut, seed, refuse_fallback=False):
+def conversation(kind, cut, seed, refuse_fallback=False, reset=False):
     """Run reference conversation `kind`; cut = None or (connection index, byte offset)."""
     from minecraft.networking.packets import Packet
     rng = random.Random(seed)
@@ -56,8 +56,9 @@ def conversation(kind, cut, seed, refuse_fallback=False):
         rec['script'] = sc
         if cut is not None and cut[0] == idx:
             sc.cut_after = cut[1]
+            sc.cut_reset = reset        # the server stops with a TCP reset instead of an orderly close
             if cut[1] == 0:
-                sess.close()
+                (sess.reset if reset else sess.close)()
                 sc.cut_done = True
                 sc.prof = Profile(v_hi)
                 return sc
@@ -206,6 +207,31 @@ def run(chk):
         for tr in traces_of(run0, conns0, None):
             tr['meta']['kind'] = kind
             traces.append(tr)
+        # ---- the server stops with a TCP reset (unread data is gone with it) between frames and inside them: an error like
+        #      any other, reported after a bounded number of steps - whatever readiness call the client uses
+        for ci, n in enumerate(lengths[kind]):
+            if kind in FALLBACK and ci == 0:
+                continue
+            ends = sorted(set(conns0[ci]['frames']))
+            offs = sorted(set([0] + ends[:-1] + [e - 1 for e in ends if e > 1] + [e + 1 for e in ends[:-1]]))
+            if quick:
+                offs = offs[chk.seed % 2::2] + [0]
+            for off in offs:
+                if off >= n:
+                    continue
+                run_, conns, obs = conversation(kind, (ci, off), chk.seed * 1019 + off, reset=True)
+                chk.traces += 1
+                chk.case((kind, ci, off, 'reset'))
+                where = '%s conversation, server stream %d reset after %d of %d bytes' % (kind, ci, off, n)
+                if run_.outcome != 'done':
+                    how = {'budget': 'exhausted the step budget (busy loop)', 'spin': 'kept reading an exhausted stream (spin)',
+                           'deadlock': 'blocked for ever (no thread can make progress)',
+                           'quiescent': 'is left waiting for ever in an idle select loop'}.get(run_.outcome, run_.outcome)
+                    chk.violation('reset:%s:%s' % (kind, run_.outcome), '%s: the client %s' % (where, how),
+                                  {'kind': kind, 'conn': ci, 'offset': off, 'reset': True})
+                elif not run_.errors:
+                    chk.violation('reset:%s:no-error' % kind, '%s: the client ended without reporting an error' % where,
+                                  {'kind': kind, 'conn': ci, 'offset': off, 'reset': True})
         for ci, n in enumerate(lengths[kind]):
             boundaries = set(conns0[ci]['frames'])
             for off in range(0, n + 1):
